@@ -32,7 +32,19 @@ def t_timeout(ctx):
     d3 = ctx.real('d3', 0, hi)
     d4 = ctx.real('d4', 0, hi) if depth >= 3 else None
     child_mode = ctx.cfg.get('child', 'await')  # await | ff (fire and forget) | none
+    tie = ctx.cfg.get('tie')
+    if tie:
+        # the handler's work ends at the very instant its time-out does (which part of the work that is, is chosen below), and one
+        # timer of the run is noticed up to 4 loop iterations late: every order of "the handler finishes" and "the time-out fires"
+        late_idx = int(ctx.int('late_idx', 0, ctx.cfg.get('max_idx', 12)))
+        late_k = int(ctx.int('late_k', 0, 4))
+        if tie == 'parent':
+            d3 = T - d1 if child_mode == 'none' else T - d1 - d2     # parent ends exactly at T (child, if any, done before)
+        else:
+            d2 = T - d1                                               # the awaited child ends exactly when the parent's time-out fires
     ctx.new_loop(horizon=4 * hi + 2)
+    if tie and late_k > 0:
+        ctx.loop.late_timer = (late_idx, late_k)
     bus = ctx.bus('A')
 
     async def hP(h, ev):
@@ -114,7 +126,10 @@ def t_timeout(ctx):
             # ran to completion: then it must not have run longer than T
             ctx.check('C10.cancelled_at_deadline', x.t - e[0].t <= T, why='handler outlived its time-out without being cancelled')
             res = [r for r in ctx.snap(evs['P1'])['results'] if r[0] == 'hP']
-            ctx.check('C10.result_recorded', len(res) == 1 and res[0][2] == 'completed', got=res)
+            at_deadline = (x.t - e[0].t == T)
+            # a handler that returns at the very instant its time-out expires may be recorded either way (asyncio.wait_for decides)
+            ok_res = len(res) == 1 and (res[0][2] == 'completed' or (res[0][2] == 'error' and res[0][4] == 'TimeoutError' and bool(at_deadline)))
+            ctx.check('C10.result_recorded', ok_res, got=res)
     if ctx.cfg.get('sibling', True):
         s = tr.entries('A', 'P1', 'hP2')
         sres = [r for r in ctx.snap(evs['P1'])['results'] if r[0] == 'hP2']
@@ -228,6 +243,10 @@ def jobs(tier):
         out.append(Job('C10', 's1.timeout', t_timeout, dict(T='1/4', depth=3, child='await'), witnesses=W, max_paths=6000))
         out.append(Job('C10', 's1.timeout', t_timeout, dict(T='1/4', depth=3, child='ff'), witnesses=W, max_paths=6000))
     out.append(Job('C10', 's1.timeout_retry', t_timeout_retry, dict(T='1/4'), witnesses=W))
+    # ties: the work ends exactly when the time-out does, one timer noticed up to 4 iterations late
+    out.append(Job('C10', 's1.timeout', t_timeout, dict(T='1/4', depth=2, child='none', sibling=True, tie='parent', max_idx=30), witnesses=W))
+    out.append(Job('C10', 's1.timeout', t_timeout, dict(T='1/4', depth=2, child='await', tie='parent', max_idx=30), witnesses=('timeout fired',)))
+    out.append(Job('C10', 's1.timeout', t_timeout, dict(T='1/4', depth=2, child='await', tie='child', max_idx=30), witnesses=('timeout fired',)))
     out += matrix_jobs('C10', 'm2', tier)
     out += matrix_jobs('C10', 'm3', tier)
     out += matrix_jobs('C10', 'm4', tier)
